@@ -321,7 +321,7 @@ fn run_twin(c: &mut Ctx, m: &'static Merchant, name: &str, cust0: u64, merch0: u
 }
 
 pub fn run(c: &mut Ctx) {
-    c.note("rule", json!("lock-step twin execution of C04-style histories: track B is restored from bytes before every step (pass 1) or before a random third of the steps (pass 2), also immediately after refused bad replies; identical per-step randomness and identical merchant replies; compared: every emitted message byte-for-byte, every accept/refuse and error variant, closing messages from copies of both tracks. Distinct = distinct (stage, history position) restore points and distinct twin payments."));
+    c.note("rule", json!("lock-step twin execution of C04-style histories: track B is restored from bytes before every step (pass 1) or before a random third of the steps (pass 2), also immediately after refused bad replies; identical per-step randomness and identical merchant replies; compared: every emitted message byte-for-byte, every accept/refuse and error variant, closing messages from copies of both tracks. Distinct = distinct (stage, history position) restore points and distinct twin payments. Added later: histories with a zero or close-tag scalar sample, and a JSON store format (alone and alternating with the binary one) on balances around 2^53. Several refused replies in a row before a restore."));
     let pairs: Vec<(u64, u64)> = vec![(10, 1000), (0, 7), (7, 0), (MAXB, 0), (0, MAXB), (1 << 62, 1 << 62), (MAXB - 1, 1), (1 << 32, 1 << 31)];
     let steps = c.tier.pick(6usize, 16);
     let nrand = c.tier.pick(24usize, 120);
